@@ -26,6 +26,18 @@ PROPS = {
                 explanation="per-strategy postconditions of irrigation(), callee contract of root_zone_water", trusted_base=[]),
     "C19": dict(functions=["check_groundwater_table", "capillary_rise", "groundwater_inflow"], level="proof",
                 explanation="adjusted field capacity range / far table / saturation below the table / no table => zero fluxes", trusted_base=[]),
+    "C07": dict(functions=[], level="other", bounded=dict(module="c07_schedule.py"),
+                explanation="BOUNDED: schedule produced by the pandas initialisers and whole-run calendar facts checked on an enumerated lattice of windows / planting dates / crops"),
+    "C16": dict(functions=[], level="other", bounded=dict(module="c16_completion.py"),
+                explanation="BOUNDED: pairwise-covering enumeration of the configuration catalogue"),
+    "C18": dict(functions=[], level="other", bounded=dict(module="c18_soil.py"),
+                explanation="BOUNDED: wf_profile and initial-water-content clauses evaluated on real initialised models"),
+    "C10": dict(functions=[], level="other", bounded=dict(module="c10_determinism.py"), explanation="BOUNDED"),
+    "C11": dict(functions=[], level="other", bounded=dict(module="c11_inputs.py"), explanation="BOUNDED"),
+    "C14": dict(functions=[], level="other", bounded=dict(module="c14_lookahead.py"), explanation="BOUNDED"),
+    "C15": dict(functions=[], level="other", bounded=dict(module="c15_weather_binding.py"), explanation="BOUNDED"),
+    "C08": dict(functions=[], level="other", bounded=dict(module="c08_seasons.py"), explanation="BOUNDED"),
+    "C20": dict(functions=[], level="other", bounded=dict(module="c20_inert.py"), explanation="BOUNDED"),
 }
 
 
